@@ -248,12 +248,12 @@ class Search(abc.ABC):
 
         self._evaluator.close()
 
+        # Force dumping if all configurations were failed
+        self.dump_jobs_done_to_csv(flush=True)
+
         if not (os.path.exists(self._path_results)):
             logging.warning(f"Could not find results file at {self._path_results}!")
             return None
-
-        # Force dumping if all configurations were failed
-        self.dump_jobs_done_to_csv(flush=True)
 
         self.extend_results_with_pareto_efficient_indicator()
 
